@@ -17,7 +17,8 @@ func init() {
 		vpRunGroups(keys, groups, env.seed, func(rng *mrand.Rand, key string, cs []*vpCase) {
 			cm := vpM(cs[0].In, "cfg")
 			cfg := &vpCfg{Store: "cookie", Refresh: 3600, Bearer: true, AllowUnverifiedEmail: vpB(cm, "allowUnverified"),
-				StaticKeys: vpS(cm, "keys") == "static", JWKSURLOnly: vpS(cm, "keys") == "jwks", Legacy: map[string]bool{"passAccessToken": true}}
+				StaticKeys: vpS(cm, "keys") == "static", JWKSURLOnly: vpS(cm, "keys") == "jwks", Legacy: map[string]bool{"passAccessToken": true},
+				ExtraIssuer: true, ExtraIssuer2: true}
 			custom := vpS(cm, "claimMap") == "custom"
 			if custom {
 				cfg.EmailClaim, cfg.GroupsClaim = "mail", "roles"
@@ -203,6 +204,35 @@ func init() {
 					w.idp.refreshMode = saveMode
 					w.idp.mu.Unlock()
 					r = nil
+				case "xbearer", "xbearer0":
+					// the token comes from one of the two extra issuers; "client" audience = the audience configured for them,
+					// "otherkey" = the other extra issuer's key under that issuer's key id
+					iss, other := w.xidp, w.xidp0
+					if path == "xbearer0" {
+						iss, other = w.xidp0, w.xidp
+					}
+					xmut := func(cl map[string]interface{}) {
+						mut(cl)
+						switch vpS(tok, "aud") {
+						case "client":
+							cl["aud"] = vpExtraAudience
+						}
+						if vpS(tok, "iss") != "other" {
+							cl["iss"] = iss.issuer()
+						}
+					}
+					var token string
+					if alg == "otherkey" {
+						token = other.mintIDToken("alice", xmut, "")
+					} else {
+						token = iss.mintIDToken("alice", xmut, alg)
+					}
+					if alg == "none" {
+						token += "x"
+					}
+					r = w.do(vpReq{Target: "/private", Header: [][2]string{{"Authorization", "Bearer " + token}}})
+					obs["accepted"] = r.UpHits > 0
+					obs["panic"] = r.Panic != ""
 				case "bearer":
 					w.idp.mu.Lock()
 					token := w.idp.mintIDToken("alice", mut, alg)
